@@ -91,6 +91,38 @@ pub fn nested_a2ml(depth: usize, kind: usize) -> String {
     s
 }
 
+/// `struct S0 { int; }; struct S1 { struct S0; (x refs) }; ... block "IF_DATA" struct S<n>;`: the text of every
+/// definition is flat, the resolved type is n levels deep and, with refs >= 2, has refs^n elements
+pub fn named_chain_a2ml(n: usize, refs: usize) -> String {
+    let mut s = String::from("struct S0 { int; }; ");
+    for i in 1..=n {
+        s.push_str(&format!("struct S{i} {{ "));
+        for _ in 0..refs {
+            s.push_str(&format!("struct S{}; ", i - 1));
+        }
+        s.push_str("}; ");
+    }
+    s.push_str(&format!("block \"IF_DATA\" struct S{n};"));
+    s
+}
+
+/// nested anonymous structs, the member of each with `dims` array dimensions `[1]`
+pub fn structs_times_dims_a2ml(structs: usize, dims: usize) -> String {
+    let mut s = String::from("block \"IF_DATA\" ");
+    for _ in 0..structs {
+        s.push_str("struct { ");
+    }
+    s.push_str("int");
+    for _ in 0..structs {
+        for _ in 0..dims {
+            s.push_str("[1]");
+        }
+        s.push_str("; }");
+    }
+    s.push(';');
+    s
+}
+
 pub fn wrap_module(body: &str) -> String {
     format!("ASAP2_VERSION 1 71\n/begin PROJECT p \"\"\n/begin MODULE m \"\"\n{body}\n/end MODULE\n/end PROJECT\n")
 }
@@ -301,7 +333,26 @@ pub fn gen_hostile(g: &Grammar, seeds: &Seeds, rng: &mut Rng) -> Hostile {
         }
         12 | 13 => {
             // hostile A2ML inside an otherwise valid file, with IF_DATA that does / does not match
-            let a2ml = if rng.chance(2, 3) {
+            let a2ml = if rng.chance(1, 6) {
+                // a scalar member with one to four array dimensions out of a pool of small, large
+                // and extreme constants (the element count is the product of all of them)
+                let mut m = String::from(*rng.pick(&["int", "uchar", "float", "ulong", "char"]));
+                for _ in 0..rng.urange(1, 4) {
+                    let d = *rng.pick(&["1", "2", "3", "16", "1024", "0x400", "65536", "1048576", "0x100000", "4194304", "2147483647", "0x7fffffff", "0", "46341"]);
+                    m.push_str(&format!("[{d}]"));
+                }
+                if rng.coin() {
+                    format!("block \"IF_DATA\" struct {{ {m}; }};")
+                } else {
+                    format!("block \"IF_DATA\" taggedstruct {{ \"A\" {m}; \"X\" struct {{ {m}; }}; }};")
+                }
+            } else if rng.chance(1, 8) {
+                match rng.below(3) {
+                    0 => named_chain_a2ml(rng.urange(1, 300), 1),
+                    1 => named_chain_a2ml(rng.urange(1, 40), rng.urange(2, 3)),
+                    _ => structs_times_dims_a2ml(rng.urange(1, 40), rng.urange(1, 40)),
+                }
+            } else if rng.chance(2, 3) {
                 rng.pick(HOSTILE_A2ML).to_string()
             } else {
                 nested_a2ml(rng.urange(1, 64), rng.below(3))
